@@ -1,5 +1,7 @@
 //! Shared utilities of the correspondence harness: one deterministic PRNG (every random choice of a
 //! run derives from VERIF_SEED), panic capture, line-oriented output.
+pub mod khutil;
+
 use std::fs::File;
 use std::io::{BufWriter, Write};
 use std::panic::{catch_unwind, AssertUnwindSafe};
